@@ -339,8 +339,7 @@ def corrupt(kind, lo, hi):
             return False                      # a request with inconsistent length fields was executed
         if calls:
             # the announced Batch Count and the batch items actually present agree (read off the bytes)
-            top = R.walk(buf)
-            n_items = sum(1 for c in (top[0][3] or []) if c[0] == T.BATCH_ITEM.value)
+            n_items = sum(1 for t_ in R.top_children_tags(buf) if t_ == T.BATCH_ITEM.value)
             announced = R.leaf_values(buf).get(T.BATCH_COUNT.value, [None])[0]
             if announced is None or announced > n_items:
                 return False                  # announced items are missing, yet part of the request was executed
